@@ -286,3 +286,241 @@ def universe_module() -> str:
     out.append(f"QPreAll == {{{t(';q=')}, {t('; q=')}, {t(' ;Q=')}, {t(';' + chr(9) + 'q=')}}}")
     out.append("====")
     return "\n".join(out) + "\n"
+
+
+# ============================================================================ growth: wider domain
+# (spec/accept/AcceptWide.tla, AcceptWideTrace.tla).  q values travel in millionths here.
+def _micro(q) -> int:
+    m = int(round(float(q) * 1000000))
+    if abs(float(q) * 1000000 - m) > 1e-3:
+        return -7  # not representable: the judge puts the line outside the domain
+    return m
+
+
+def _pairs(acc):
+    return [{"v": cps(v), "q": _micro(q)} for v, q in acc]
+
+
+_NOLOOK = {"on": False, "contains": [], "find": [], "html": False, "xhtml": False, "json": False}
+
+
+def blank_line(op, fam, api):
+    return {"op": op, "fam": fam, "api": api, "hdr": [], "items": [], "offers": [], "order": [], "hasq": False, "quals": [],
+            "hasbest": False, "best": [], "none": True, "exc": "", "rt": False, "rtorder": [], "look": dict(_NOLOOK)}
+
+
+def negotiate_wide(case):
+    """case = (fam, api, header text, offers, prefix, tags) -> line for AcceptWideTrace (op "wide")."""
+    fam, api, hdr, offers = case[:4]
+    rec = blank_line("wide", fam, api)
+    rec["hdr"], rec["offers"] = cps(hdr), [cps(o) for o in offers]
+    try:
+        from werkzeug.http import parse_accept_header
+
+        if api == "request":
+            from werkzeug.wrappers import Request
+
+            key, attr = _REQ[fam]
+            acc = getattr(Request({key: hdr, "REQUEST_METHOD": "GET", "wsgi.url_scheme": "http", "SERVER_NAME": "x",
+                                   "SERVER_PORT": "80"}), attr)
+        else:
+            acc = parse_accept_header(hdr, _classes()[fam])
+        if api == "roundtrip" and acc.to_header().strip(" ,\t"):
+            rec["rt"], rec["rtorder"] = True, _pairs(acc)
+            text = acc.to_header()
+            rec["hdr"] = cps(text)
+            acc = parse_accept_header(text, _classes()[fam])
+        rec["order"] = _pairs(acc)
+        rec["hasq"], rec["quals"] = True, [_micro(acc.quality(o)) for o in offers]
+        best = acc.best_match(list(offers))
+        rec["hasbest"] = True
+        if best is not None:
+            rec["best"], rec["none"] = cps(best), False
+        finds = []
+        for o in offers:
+            f = acc.find(o)
+            try:
+                ix = acc.index(o)
+            except ValueError:
+                ix = -1
+            finds.append(f if f == ix else -99 if f < 0 else -1)  # find and index must agree
+        rec["look"] = {"on": True, "contains": [o in acc for o in offers], "find": finds,
+                       "html": bool(getattr(acc, "accept_html", False)), "xhtml": bool(getattr(acc, "accept_xhtml", False)),
+                       "json": bool(getattr(acc, "accept_json", False))}
+    except Exception as e:
+        rec["exc"] = type(e).__name__
+    return rec
+
+
+def negotiate_wide_all(cases):
+    return [negotiate_wide(c) for c in cases]
+
+
+Q_WIDE = ["0.5555", "0.12345", "1.0000", "1.00000", "0.0001", "1.", "0.", "00.5", "01", "000", "-0", "-0.0", "1.0001", "0.1234567"[:8],
+          ".5", "abc", "1e0", "+1", "-1", "2", "0.5", "0", "1", "0.001", "1.000", "0.9", "0.75", "0.999999"]
+MIME_PARAMS = ["level=1", "level=2", "charset=utf-8", "p=1", "format=flowed", "t=x"]
+QUOTED_PARAMS = ['title="a,b;c"', 'title="a b"', 'level="1"', 'charset="utf-8"', 't="x;q=0"', 't=","', 't=""', 'p="1"', 't="a/b"']
+
+
+def random_wide_case(rng: random.Random, fam: str):
+    """A header using the wider forms; returns (fam, api, hdr, offers, "Wide", tags)."""
+    pool = POOL[fam]
+    tags = set()
+    n = rng.choice([1, 2, 2, 3, 3, 4])
+    budget = 5  # at most ~2^5 alternative parses
+    parts = []
+    mains = []
+    for _ in range(n):
+        r = rng.choice(pool["ranges"])
+        main = r.split(";")[0]
+        mains.append(r)
+        segs = [] if fam != "mime" else ["" + p for p in r.split(";")[1:]]
+        if fam == "mime" and rng.random() < 0.35:
+            qp = rng.choice(QUOTED_PARAMS)
+            if not any(x.lower().startswith(qp.split("=")[0] + "=") for x in segs):
+                segs.append(qp)
+                tags.add("quoted")
+        # the q parameter(s)
+        qsegs = []
+        x = rng.random()
+        if x < 0.75:
+            qt = rng.choice(Q_WIDE if rng.random() < 0.7 else Q_TEXTS[1:])
+            qn = "Q" if rng.random() < 0.15 else "q"
+            eq = "="
+            if budget > 0 and rng.random() < 0.1:
+                eq = rng.choice([" =", "= ", " = "])
+                tags.add("ws-eq")
+                budget -= 2
+            if budget > 0 and rng.random() < 0.06:
+                qt = ""
+                tags.add("empty-q")
+                budget -= 1
+            elif budget > 0 and rng.random() < 0.06 and eq == "=":
+                qt = '"' + qt + '"'
+                tags.add("quoted-q")
+                budget -= 1
+            if qt.strip('"') in ("1.", "0.", "00.5", "01", "000", "-0", "-0.0", "0.5555", "0.12345", "1.0000", "1.00000", "0.0001", "0.999999"):
+                budget -= 1
+                tags.add("undecided-q")
+            qsegs.append(qn + eq + qt)
+            if budget > 1 and rng.random() < 0.1:
+                qsegs.append("q=" + rng.choice(["0.5", "0", "1", "abc", "0.25"]))
+                tags.add("dup-q")
+                budget -= 2
+        if qsegs and segs and budget > 0 and rng.random() < 0.4:
+            k = rng.randrange(len(segs) + 1)
+            if k < len(segs):
+                tags.add("accept-ext")
+                budget -= 1
+            segs = segs[:k] + qsegs + segs[k:]
+        elif qsegs and fam == "mime" and budget > 0 and rng.random() < 0.1:
+            segs = segs + qsegs + ["ext=1"]
+            tags.add("accept-ext")
+            budget -= 1
+        else:
+            segs = segs + qsegs
+        if rng.random() < 0.08:
+            segs.insert(rng.randrange(len(segs) + 1), "")
+            tags.add("empty-param")
+        sc = rng.choice([";", "; ", " ;", " ; ", ";\t"]) if rng.random() < 0.5 else ";"
+        parts.append(main + "".join(sc + s for s in segs))
+    if rng.random() < 0.2:
+        parts.insert(rng.randrange(len(parts) + 1), rng.choice(["", " ", ""]))
+        tags.add("empty-element")
+    hdr = parts[0]
+    for x in parts[1:]:
+        hdr += rng.choice(SEPS) + x
+    if not hdr.strip(" \t,"):
+        hdr = "*" if fam != "mime" else "*/*"
+    k = rng.choice([1, 2, 2, 3, 4])
+    offers = []
+    for _ in range(k):
+        if rng.random() < 0.5:
+            o = rng.choice(mains)
+            if fam == "mime":
+                o = o.replace("*", rng.choice(["b", "html"]))
+            elif o == "*":
+                o = rng.choice(pool["offers"])
+        else:
+            o = rng.choice(pool["offers"])
+        offers.append(o)
+    if fam == "mime" and rng.random() < 0.3:
+        offers.append(rng.choice(["text/html", "application/json", "application/xhtml+xml", "application/xml"]))
+    offers = [o for o in offers if valid_offer(fam, o)] or [pool["offers"][0]]
+    api = rng.choice(["class", "class", "request", "roundtrip"])
+    return (fam, api, hdr, offers, "Wide", sorted(tags))
+
+
+WIDE_FIXED = [
+    ("mime", 'text/html;title="a,b;c";q=0.5', ["text/html", "text/plain"]),
+    ("mime", 'text/html;title="a,b;c";q=0.5, text/plain;q=0.6', ["text/html", "text/plain"]),
+    ("mime", 'text/html;level="1";q=0.5, text/html;q=0.4', ["text/html;level=1", "text/html"]),
+    ("mime", "a/b,,c/d", ["c/d", "a/b"]), ("mime", ",a/b, ,", ["a/b"]),
+    ("mime", "a/b;q=0.5;q=0.7, c/d;q=0.6", ["a/b", "c/d"]),
+    ("mime", "a/b;q=0.5;ext=1, a/b;q=0.3", ["a/b", "a/b;ext=1"]),
+    ("mime", "a/b;Q=0.2, c/d;q=0.1", ["c/d", "a/b"]),
+    ("mime", "a/b;q=0.5555, c/d;q=0.5554", ["c/d", "a/b"]), ("mime", "a/b;q=1.0000, c/d;q=0.9", ["c/d", "a/b"]),
+    ("mime", "a/b;q=.5, c/d;q=0.1", ["a/b", "c/d"]), ("mime", "a/b;q=1., c/d;q=0.1", ["a/b", "c/d"]),
+    ("mime", "a/b ; q=0.5 , c/d\t;\tq=0.7", ["a/b", "c/d"]), ("mime", "a/b;q= 0.5, c/d;q =0.1", ["a/b", "c/d"]),
+    ("mime", "a/b;q=, c/d;q=0.5", ["a/b", "c/d"]), ("mime", 'a/b;q="0.5", c/d;q=0.6', ["a/b", "c/d"]),
+    ("mime", "a/b;;q=0.5;, c/d", ["a/b", "c/d"]), ("mime", "a/b;q=1.0001, c/d;q=0.1", ["a/b", "c/d"]),
+    ("language", "en-US;Q=0.5, de ; q=0.7,,fr;q=1.", ["en-US", "de", "fr"]),
+    ("charset", "utf-8;q=0.55555, latin1;q=00.6", ["UTF8", "iso-8859-1"]),
+    ("accept", "gzip;q=-0, br;q=0.0001, *;q=.1", ["gzip", "br", "deflate"]),
+]
+
+CODING_HEADERS = ["gzip;q=0, identity, *;q=0.1", "gzip, deflate, br", "gzip, deflate, br, zstd", "compress, gzip", "*", "compress;q=0.5, gzip;q=1.0",
+                  "gzip;q=1.0, identity; q=0.5, *;q=0", "identity;q=0", "*;q=0", "identity;q=0, *;q=0.5", "*;q=0, gzip", "gzip;q=0.8, *;q=0.8",
+                  "br;q=1.0, gzip;q=0.8, *;q=0.1", "GZIP;q=0.5, Identity;q=0.5", "x-gzip, gzip;q=0", "deflate;q=0.001, identity;q=0.001",
+                  "gzip;q=0.5, identity;q=0.5, br;q=0.5", "*;q=0.3, identity;q=0.2, gzip;q=0.1", "gzip;q=2, identity", "identity, identity;q=0"]
+CODINGS = ["gzip", "br", "deflate", "identity", "zstd", "compress", "x-gzip", "Identity", "GZIP"]
+
+
+def coding_cases(rng: random.Random, nrandom: int):
+    """The codings family: plain Accept as used for Accept-Encoding (identity / '*' interplay)."""
+    cases = []
+    for h in CODING_HEADERS:
+        for i, c in enumerate(CODINGS):
+            cases.append(("accept", "request", h, [c], "Coding", []))
+            cases.append(("accept", "class", h, [c, CODINGS[(i + 1) % len(CODINGS)], "identity"], "Coding", []))
+            cases.append(("accept", "roundtrip", h, ["identity", c, CODINGS[(i + 4) % len(CODINGS)]], "Coding", []))
+    names = ["gzip", "br", "deflate", "identity", "*", "zstd", "GZIP", "Identity", "compress"]
+    for _ in range(nrandom):
+        items = [(rng.choice(names), rng.choice(["", "", "0", "0.5", "1", "0.1", "0.001", "abc", "2", "0.8"])) for _ in range(rng.randint(1, 5))]
+        h = render(items, rng if rng.random() < 0.5 else None)
+        offers = [rng.choice(CODINGS) for _ in range(rng.randint(1, 4))]
+        cases.append(("accept", rng.choice(["class", "request", "roundtrip"]), h, offers, "Coding", []))
+    return cases
+
+
+def both_sides_cases(rng: random.Random, n: int):
+    """LanguageAccept with '_' / '-' and letter case varied on BOTH sides, through all three fallback stages;
+    CharsetAccept with aliases on both sides.  Old line format (AcceptTrace.tla)."""
+
+    def var(tag):
+        sep = rng.choice(["-", "_"])
+        t = tag.replace("-", sep).replace("_", sep)
+        return rng.choice([t, t.upper(), t.lower(), t.title(), _swapcase(rng, t)])
+
+    tags = ["en", "en-US", "en-GB", "de", "de-AT", "fr-CA", "zh-Hans-CN", "pt-BR", "fi", "fil-PH", "es-419"]
+    cs = ["utf-8", "utf8", "utf_8", "u8", "latin1", "latin-1", "iso-8859-1", "iso8859-1", "l1", "ascii", "us-ascii", "646", "x-foo", "x-bar"]
+    cases = []
+    for _ in range(n):
+        if rng.random() < 0.7:
+            items = [(var(rng.choice(tags)) if rng.random() < 0.9 else "*", rng.choice(["", "", "0", "0.5", "0.8", "0.5"])) for _ in range(rng.randint(1, 3))]
+            base = [it[0] for it in items if it[0] != "*"] or ["en"]
+            offers = []
+            for _ in range(rng.randint(1, 4)):
+                b = rng.choice(base) if rng.random() < 0.7 else rng.choice(tags)
+                x = rng.random()
+                if x < 0.3:      # stage 2: the offer is the range's primary tag
+                    b = b.replace("_", "-").split("-")[0]
+                elif x < 0.6:    # stage 3: the offer extends the range's primary tag
+                    b = b.replace("_", "-").split("-")[0] + rng.choice(["-XX", "_yy", "-Latn-ZZ"])
+                offers.append(var(b))
+            cases.append(("language", rng.choice(["class", "request", "default"]), render(items, rng), offers))
+        else:
+            items = [(_swapcase(rng, rng.choice(cs)) if rng.random() < 0.9 else "*", rng.choice(["", "0", "0.5", "0.8"])) for _ in range(rng.randint(1, 3))]
+            offers = [_swapcase(rng, rng.choice(cs)) for _ in range(rng.randint(1, 4))]
+            cases.append(("charset", rng.choice(["class", "request", "getitem"]), render(items, rng), offers))
+    return cases
